@@ -1,6 +1,6 @@
 SPECIFICATION MCSpec
 CONSTANTS
-  Chunks = {1, 2}
+  Chunks = {1}
   Addrs = {1}
   Hdrs = {"none"}
   MaxNow = 0
